@@ -4,7 +4,7 @@
    the harness observed from encoding/json on exactly the inputs of the case. *)
 From Coq Require Import List NArith ZArith String Bool.
 From V.Base Require Import Hex BigEndian.
-From V.C09 Require Import Modes Gen Model.
+From V.C09 Require Import Modes Gen Model Wire Assemble.
 Import ListNotations.
 
 Definition tbl := list (string * string).
@@ -78,6 +78,17 @@ Definition m_hdr_of_pb (t : tbl) := hdr_of_pb_body bytes (oracle t jnull) jnull 
 Definition m_blk_of_pb (t : tbl) := block_of_pb bytes (oracle t jnull) jnull bytes (oracle t jnull) jnull Gen.sites Gen.recvs.
 Definition m_grp_of_pb := group_of_pb Gen.sites Gen.recvs.
 
+(* ---- wire layer observations ---- *)
+Inductive wobs :=
+| WE (kind code : N)          (* kind: 0 Transaction 1 TransactionSlice 2 BlockHeader 3 Block 4 Group;
+                                 code: 1 unexpected EOF, 2 can't skip unknown wire type, 3 required field not set, 4 illegal tag 0 *)
+| WTx (p : pb_tx) | WTxs (l : list pb_tx) | WHdr (p : pb_hdr) | WBlk (p : pb_block) | WGrp (p : pb_group).
+
+Inductive uobs :=
+| UE (kind : N)                        (* error returned *)
+| UNilHdr                              (* UnMarshalBlockHeader: (nil, nil) *)
+| UTx (x : Tx) | UHdr (x : Hdr) | UBlk (x : Blk) | UGrp (x : group).
+
 Inductive case :=
 | CGen (ss : list site) (rs : list recv)                       (* table re-extracted from the sources under test *)
 | CTx (t : tbl) (p : pb_tx) (o : outcome Tx)                   (* pbToTransaction via PbToTransactions *)
@@ -88,7 +99,11 @@ Inductive case :=
 | CHdrPb (x : Hdr) (p : option pb_hdr)                         (* BlockHeaderToPb *)
 | CGrpPb (x : group) (o : outcome pb_group)                    (* GroupToPb *)
 | CTime (b : string) (o : option gtime)                        (* time.UnmarshalBinary *)
-| CTimeM (t : gtime) (o : option string).                      (* time.MarshalBinary *)
+| CTimeM (t : gtime) (o : option string)                       (* time.MarshalBinary *)
+| CSchema (s : schema)                                          (* field tables re-extracted from x.pb.go *)
+| CWire (b : string) (o : wobs)                                 (* proto.Unmarshal into the pb type named by [o] *)
+| CEnc (p : wobs) (o : option string)                           (* proto.Marshal *)
+| CUn (t : tbl) (b : string) (o : uobs).                        (* types.UnMarshalX, bytes to node value *)
 
 Definition optb_eqb (a b : option bytes) : bool := obytes_eqb a b.
 Definition oN_eqb (a b : option N) : bool :=
@@ -128,6 +143,51 @@ Definition pb_group_eqb (a b : pb_group) : bool :=
 Definition blk_eqb (a b : Blk) : bool :=
   ohdr_eqb a.(c_Header _ _) b.(c_Header _ _) && olist_eqb tx_eqb a.(c_Transactions _ _) b.(c_Transactions _ _).
 
+Definition pb_block_eqb (a b : pb_block) : bool :=
+  match a.(k_Header), b.(k_Header) with Some x, Some y => pb_hdr_eqb x y | None, None => true | _, _ => false end &&
+  list_eqb pb_tx_eqb a.(k_Transactions) b.(k_Transactions).
+
+Definition ucode {A} (r : ures A) : N :=
+  match r with UOk _ => 0 | UErrWire EEOF => 1 | UErrWire EWire => 2 | UErrWire ETag0 => 4 | UErrRequired => 3 | UFuel => 9 end%N.
+
+Definition chk_u {A} (r : ures A) (e : A -> bool) : bool := match r with UOk a => e a | _ => false end.
+
+Definition chk_wire (b : bytes) (o : wobs) : bool :=
+  match o with
+  | WE 0 c => N.eqb (ucode (unmarshal_tx Gen.msgs b)) c
+  | WE 1 c => N.eqb (ucode (unmarshal_txs Gen.msgs b)) c
+  | WE 2 c => N.eqb (ucode (unmarshal_hdr Gen.msgs b)) c
+  | WE 3 c => N.eqb (ucode (unmarshal_block Gen.msgs b)) c
+  | WE 4 c => N.eqb (ucode (unmarshal_group Gen.msgs b)) c
+  | WE _ _ => false
+  | WTx p => chk_u (unmarshal_tx Gen.msgs b) (fun q => pb_tx_eqb q p)
+  | WTxs p => chk_u (unmarshal_txs Gen.msgs b) (fun q => list_eqb pb_tx_eqb q p)
+  | WHdr p => chk_u (unmarshal_hdr Gen.msgs b) (fun q => pb_hdr_eqb q p)
+  | WBlk p => chk_u (unmarshal_block Gen.msgs b) (fun q => pb_block_eqb q p)
+  | WGrp p => chk_u (unmarshal_group Gen.msgs b) (fun q => pb_group_eqb q p)
+  end.
+
+Definition chk_enc (p : wobs) (o : option string) : bool :=
+  let r := match p with
+           | WTx p => marshal_tx Gen.msgs p | WTxs p => marshal_txs Gen.msgs p | WHdr p => marshal_hdr Gen.msgs p
+           | WBlk p => marshal_block Gen.msgs p | WGrp p => marshal_group Gen.msgs p | WE _ _ => None end in
+  match r, o with Some a, Some h => bytes_eqb a (unhex h) | None, None => true | _, _ => false end.
+
+(* bytes -> node value: the model of types.UnMarshalX = wire model, then the conversion model *)
+Definition chk_un (t : tbl) (b : bytes) (o : uobs) : bool :=
+  match o with
+  | UE 0 => negb (N.eqb (ucode (unmarshal_tx Gen.msgs b)) 0)
+  | UE 2 => negb (N.eqb (ucode (unmarshal_hdr Gen.msgs b)) 0)
+  | UE 3 => negb (N.eqb (ucode (unmarshal_block Gen.msgs b)) 0)
+  | UE 4 => negb (N.eqb (ucode (unmarshal_group Gen.msgs b)) 0)
+  | UE _ => false
+  | UNilHdr => chk_u (unmarshal_hdr Gen.msgs b) (fun p => out_eqb ohdr_eqb (m_hdr_of_pb t p) (Ok None))
+  | UTx x => chk_u (unmarshal_tx Gen.msgs b) (fun p => out_eqb tx_eqb (m_tx_of_pb t p) (Ok x))
+  | UHdr x => chk_u (unmarshal_hdr Gen.msgs b) (fun p => out_eqb ohdr_eqb (m_hdr_of_pb t p) (Ok (Some x)))
+  | UBlk x => chk_u (unmarshal_block Gen.msgs b) (fun p => out_eqb blk_eqb (m_blk_of_pb t p) (Ok x))
+  | UGrp x => chk_u (unmarshal_group Gen.msgs b) (fun p => out_eqb group_eqb (m_grp_of_pb p) (Ok x))
+  end.
+
 Definition check (c : case) : bool :=
   match c with
   | CGen ss rs => list_eqb site_eqb ss Gen.sites && list_eqb recv_eqb rs Gen.recvs
@@ -143,4 +203,8 @@ Definition check (c : case) : bool :=
                  | Some a, Some b => time_eqb a b | None, None => true | _, _ => false end
   | CTimeM t o => match time_marshal t, o with
                   | Some a, Some b => bytes_eqb a (unhex b) | None, None => true | _, _ => false end
+  | CSchema s => schema_eqb s Gen.msgs
+  | CWire b o => chk_wire (unhex b) o
+  | CEnc p o => chk_enc p o
+  | CUn t b o => chk_un t (unhex b) o
   end.
